@@ -274,11 +274,12 @@ pub fn header(cmd: &Value) -> Value {
     let o = opts(cmd);
     let prev = build_prev(&cmd["prev"]);
     let r = guarded(|| decode_picture(&mut rd, o, prev.as_ref()));
+    ev.as_object_mut().unwrap().remove("prev");
     match r {
         Ok(Ok(Some(p))) => {
             ev["ret"] = json!("ok");
             ev["rc"] = json!("ok");
-            ev["hdr"] = picture_json(&p);
+            ev["got"] = picture_json(&p);
         }
         Ok(Ok(None)) => {
             ev["ret"] = json!("none");
@@ -318,7 +319,17 @@ fn build_prev(v: &Value) -> Option<hk::Picture> {
         version: None,
         temporal_reference: 0,
         format: fmt,
-        options: hk::PictureOption::from_bits_truncate(v["options"].as_u64().unwrap_or(0) as u32),
+        options: {
+            let mut o = hk::PictureOption::from_bits_truncate(v["options"].as_u64().unwrap_or(0) as u32);
+            if let Some(names) = v["optnames"].as_array() {
+                for n in names {
+                    if let Some(f) = hk::PictureOption::from_name(n.as_str().unwrap_or("")) {
+                        o |= f;
+                    }
+                }
+            }
+            o
+        },
         has_plusptype: v["plus"].as_bool().unwrap_or(true),
         has_opptype: v["opp"].as_bool().unwrap_or(true),
         picture_type: PictureTypeCode::IFrame,
@@ -364,14 +375,15 @@ fn picture_json(p: &hk::Picture) -> Value {
         "tr": p.temporal_reference,
         "fmt": fmt, "w": w, "h": h, "par": par, "parw": parw, "parh": parh,
         "options": p.options.bits(),
+        "opts": p.options.iter_names().map(|(n, _)| n.to_string()).collect::<Vec<_>>(),
         "plus": p.has_plusptype,
         "opp": p.has_opptype,
         "pt": ptype_name(p.picture_type),
         "mvr": match p.motion_vector_range { None => -1, Some(hk::MotionVectorRange::Extended) => 1, Some(hk::MotionVectorRange::Unlimited) => 2 },
-        "sss": p.slice_submode.as_ref().map(|s| s.bits() as i64).unwrap_or(-1),
+        "sss": p.slice_submode.as_ref().map(|s| s.iter_names().map(|(n, _)| n.to_string()).collect::<Vec<_>>()).unwrap_or(vec!["-".to_string()]),
         "elnum": p.scalability_layer.as_ref().map(|s| s.enhancement as i64).unwrap_or(-1),
         "rlnum": p.scalability_layer.as_ref().and_then(|s| s.reference).map(|v| v as i64).unwrap_or(-1),
-        "rpsmf": p.reference_picture_selection_mode.as_ref().map(|s| s.bits() as i64).unwrap_or(-1),
+        "rpsmf": p.reference_picture_selection_mode.as_ref().map(|s| s.iter_names().map(|(n, _)| n.to_string()).collect::<Vec<_>>()).unwrap_or(vec!["-".to_string()]),
         "trp": p.prediction_reference.map(|v| v as i64).unwrap_or(-1),
         "bcm": p.backchannel_message.is_some(),
         "rprp": p.reference_picture_resampling.is_some(),
